@@ -328,4 +328,88 @@ theorem ext_end_point_near_ray (pp pe : Pos Float32) (t : Float32)
       (2 : ℚ) ^ (-100 : Int) ≤ 11 / 16 := by norm_num
   exact ⟨_, h0, by linarith, by linarith⟩
 
+/-! ### non-vacuity: a concrete cut, evaluated by the kernel -/
+
+section Examples
+open Rosu.Curve Float.Model Float.Model.UnpackedFloat
+
+/-- `p_k = (100, 200)`, `p_{k+1} = (107, 224)`: a segment of length `25` (`7² + 24² = 25²`), direction `(0.28, 0.96)`. -/
+def demoPP : Pos Float32 := ⟨Float32.ofBits 0x42C80000, Float32.ofBits 0x43480000⟩
+def demoPE : Pos Float32 := ⟨Float32.ofBits 0x42D60000, Float32.ofBits 0x43600000⟩
+/-- the parameter `(L − len_k) as f32` for `L = 110`, `len_k = 100`. -/
+def demoT : Float32 := Cvt.down ((110 : Float) - 100)
+
+/-- `calculate_length` on the two-point path with `L = 10`: the path becomes `[p_k, e]` with
+`e = (0x42CD999A, 0x4351999A) = (102.80000305…, 209.60000610…)`, lengths `[0, 10]`; `e` is `reproject p_k p_{k+1} 10`. -/
+example : ((calculateLength [demoPP, demoPE] (some (10 : Float)) 0).toOption.map fun r =>
+      (r.1.map fun p => (p.x.toBits, p.y.toBits), r.2.map Float.toBits)) =
+    some ([(0x42C80000, 0x43480000), (0x42CD999A, 0x4351999A)], ([0, 10] : List Float).map Float.toBits) := by
+  decide +kernel
+
+theorem demo_bits : (reproject demoPP demoPE demoT).x = Float32.ofBits 0x42CD999A ∧
+    (reproject demoPP demoPE demoT).y = Float32.ofBits 0x4351999A ∧
+    Pos.length Float (demoPE - demoPP) = Float32.ofBits 0x41C80000 ∧ demoT = Float32.ofBits 0x41200000 := by
+  decide +kernel
+
+theorem toRat32_bits {u : UInt32} {s : Sign} {m : Nat} {e : Int} {hm : 0 < m}
+    (h : u.toNat % 2 ^ 31 ≤ 0x7F800000) (hu : FM.unpackNat 23 8 u.toNat = .finite s m e hm) :
+    toRat32 (Float32.ofBits u) = sgnQ s * (m : ℚ) * (2 : ℚ) ^ e := by
+  apply toRat32_of_unpack (hm := hm); rw [FM.float32_unpack_ofBits u h]; exact hu
+
+theorem demo_100 : toRat32 (Float32.ofBits 0x42C80000) = 100 := by
+  rw [toRat32_bits (s := .positive) (m := 13107200) (e := -17) (hm := by decide) (by decide) rfl]; norm_num [sgnQ]
+theorem demo_200 : toRat32 (Float32.ofBits 0x43480000) = 200 := by
+  rw [toRat32_bits (s := .positive) (m := 13107200) (e := -16) (hm := by decide) (by decide) rfl]; norm_num [sgnQ]
+theorem demo_107 : toRat32 (Float32.ofBits 0x42D60000) = 107 := by
+  rw [toRat32_bits (s := .positive) (m := 14024704) (e := -17) (hm := by decide) (by decide) rfl]; norm_num [sgnQ]
+theorem demo_224 : toRat32 (Float32.ofBits 0x43600000) = 224 := by
+  rw [toRat32_bits (s := .positive) (m := 14680064) (e := -16) (hm := by decide) (by decide) rfl]; norm_num [sgnQ]
+theorem demo_25 : toRat32 (Float32.ofBits 0x41C80000) = 25 := by
+  rw [toRat32_bits (s := .positive) (m := 13107200) (e := -19) (hm := by decide) (by decide) rfl]; norm_num [sgnQ]
+theorem demo_10 : toRat32 (Float32.ofBits 0x41200000) = 10 := by
+  rw [toRat32_bits (s := .positive) (m := 10485760) (e := -20) (hm := by decide) (by decide) rfl]; norm_num [sgnQ]
+theorem demo_ex : toRat32 (Float32.ofBits 0x42CD999A) = 13474202 / 131072 := by
+  rw [toRat32_bits (s := .positive) (m := 13474202) (e := -17) (hm := by decide) (by decide) rfl]; norm_num [sgnQ]
+theorem demo_ey : toRat32 (Float32.ofBits 0x4351999A) = 13736346 / 65536 := by
+  rw [toRat32_bits (s := .positive) (m := 13736346) (e := -16) (hm := by decide) (by decide) rfl]; norm_num [sgnQ]
+
+/-- **the hypotheses of `cut_end_point_err_float32` hold on the demo** (with `κ = 0`: `τ = 10 ≤ ℓ = 25`), so its
+conclusion does: `ρ = 10/25` and the end point is within `11/32 + 2⁻²⁰` px of `(102.8, 209.6)`. -/
+example :
+    |toRat32 (reproject demoPP demoPE demoT).x - (100 + 10 / 25 * (107 - 100))| ≤ cutBound ∧
+    |toRat32 (reproject demoPP demoPE demoT).y - (200 + 10 / 25 * (224 - 200))| ≤ cutBound := by
+  obtain ⟨bx, bY, bl, bt⟩ := demo_bits
+  have h := cut_end_point_err_float32 demoPP demoPE demoT 0
+    (by rw [bx]; decide +kernel) (by rw [bY]; decide +kernel) (by rw [bl]; decide +kernel)
+    ⟨by show |toRat32 (Float32.ofBits 0x42C80000)| ≤ _; rw [demo_100]; norm_num,
+     by show |toRat32 (Float32.ofBits 0x43480000)| ≤ _; rw [demo_200]; norm_num⟩
+    ⟨by show |toRat32 (Float32.ofBits 0x42D60000)| ≤ _; rw [demo_107]; norm_num,
+     by show |toRat32 (Float32.ofBits 0x43600000)| ≤ _; rw [demo_224]; norm_num⟩
+    (by rw [bl, demo_25]; norm_num) (by rw [bl, demo_25]; norm_num) (by rw [bt, demo_10]; norm_num)
+    (by rw [bl, bt, demo_25, demo_10]; norm_num) (le_refl _) (by norm_num)
+  have e1 : toRat32 demoT = 10 := by rw [bt, demo_10]
+  have e2 : toRat32 (Pos.length Float (demoPE - demoPP)) = 25 := by rw [bl, demo_25]
+  have a1 : toRat32 demoPP.x = 100 := demo_100
+  have a2 : toRat32 demoPP.y = 200 := demo_200
+  have a3 : toRat32 demoPE.x = 107 := demo_107
+  have a4 : toRat32 demoPE.y = 224 := demo_224
+  rw [e1, e2, a1, a2, a3, a4] at h
+  exact ⟨h.2.1, h.2.2⟩
+
+/-- **the bound is not vacuous and the end point is NOT on the segment**: the computed point is
+`(102.8 + 2⁻¹⁷·0.4, 209.6 + 2⁻¹⁶·0.4)`: its errors `≈ 3.05·10⁻⁶` and `≈ 6.10·10⁻⁶` are non-zero (far below the bound
+`0.34376`, which is reached only near `|x| = 2¹⁹`), and it is off the line through `p_k`, `p_{k+1}`:
+`Δy·(e.x − x_k) ≠ Δx·(e.y − y_k)` (the cross product is `2⁻¹⁵·1.0… ≠ 0`); it does not lie on the exact-arithmetic
+segment, only within the rounding bound of it. -/
+example :
+    toRat32 (reproject demoPP demoPE demoT).x - (100 + 10 / 25 * (107 - 100)) = 1 / 327680 ∧
+    toRat32 (reproject demoPP demoPE demoT).y - (200 + 10 / 25 * (224 - 200)) = 1 / 163840 ∧
+    (224 - 200) * (toRat32 (reproject demoPP demoPE demoT).x - 100) ≠
+      (107 - 100) * (toRat32 (reproject demoPP demoPE demoT).y - 200) := by
+  obtain ⟨bx, bY, _, _⟩ := demo_bits
+  rw [bx, bY, demo_ex, demo_ey]
+  norm_num
+
+end Examples
+
 end Rosu.C16
